@@ -1,4 +1,20 @@
+mod chunks;
+mod merge;
+mod normalize;
+mod roundtrip;
+mod textgen;
+mod util;
+
 fn main() {
-    eprintln!("usage: vh-text <subcommand> [options]");
-    std::process::exit(2);
+    let cmd = std::env::args().nth(1).unwrap_or_default();
+    match cmd.as_str() {
+        "merge" => merge::main_merge(),
+        "chunks" => chunks::main_chunks(),
+        "bpe" => roundtrip::main_roundtrip(),
+        "normalize" => normalize::main_normalize(),
+        _ => {
+            eprintln!("usage: vh-text <merge|chunks|bpe|normalize> [options]");
+            std::process::exit(2);
+        }
+    }
 }
